@@ -8,7 +8,7 @@ from filter_functions import basis as ffb
 from filter_functions import util
 
 from .. import gens
-from ..common import driver
+from ..common import corr_script, driver
 
 THEOREMS = '''cross_block_nonzero equivalentPauli_first equivalentPauli_second
 equivalentPauli_three_qubits equivalentPauli_two_qubits extend_control_matrix
@@ -18,7 +18,25 @@ extend_propagators extend_segIntegrand finProd_first_val finProd_second_val kron
 kronBasis_isComplete kronBasis_isOrthoHerm kron_isEigh kron_isEigh_prod kron_liouville
 kron_propagators kron_propagators_model kron_segProp kron_segProp_of_isEigh
 kron_total_propagator_model pauliN_ortho_zero pauliN_zero tensorMat_toMatrix tensorSumVec_eq
-trace_basis_sqrt trace_kronFin_conj trace_kron_basis'''.split() + ['FFVerif.C05d.' + t for t in '''
+trace_basis_sqrt trace_kronFin_conj trace_kron_basis'''.split() + [
+    # module C06Def: the definition part of extend (identifier mappings, operator placement, additional
+    # noise Hamiltonian by identifier, times, rejections)
+    'FFVerif.C06Def.extendDef_sorted',
+    'FFVerif.C06Def.extendDef_keeps_association',
+    'FFVerif.C06Def.extendDef_term_mem',
+    'FFVerif.C06Def.extendDef_operator_placement',
+    'FFVerif.C06Def.extendDef_single_placement',
+    'FFVerif.C06Def.extendDef_default_identifier',
+    'FFVerif.C06Def.extendDef_given_identifier',
+    'FFVerif.C06Def.extendDef_times',
+    'FFVerif.C06Def.extendDef_additional_by_identifier',
+    'FFVerif.C06Def.extendDef_additional_order_irrelevant',
+    'FFVerif.C06Def.extendDef_errors_iff',
+    'FFVerif.C06Def.nDtOf_eq',
+    'FFVerif.C06Def.extendDef_shortcut',
+    'FFVerif.C06Def.extend_duplicates_rejected',
+    'FFVerif.C06Def.extendDef_ids_unique',
+    'FFVerif.C06Def.mapIdentifiers_spec'] + ['FFVerif.C05d.' + t for t in '''
 ff_grid_sound ff_grid_iff cached_iff_grid forced_ff_never_silently_skipped disabled_ff_never_cached
 auto_ff_iff auto_no_omega_error extended_requires_pauli extended_iff recomputed_iff diag_wanted_iff
 diag_iff diag_cached_iff additional_rows addRows_iff error_iff no_other_errors early_return_nothing
@@ -28,7 +46,7 @@ remap_omega_iff remap_lazy_iff remap_not_pauli_blocks_auto'''.split()] + [
 insert_step insert_keeps_chain_eq_registers length_mismatch extend_registers_sorted
 unsorted_block_counterexamples positions_before_merge slips_counterexamples
 idle_order_irrelevant'''.split()]
-LEAN_MODULES = ['FFVerif.Props.C05', 'FFVerif.Props.C05d', 'FFVerif.Props.C05e']
+LEAN_MODULES = ['FFVerif.Props.C05', 'FFVerif.Props.C05d', 'FFVerif.Props.C05e', 'FFVerif.Props.C06Def']
 PINS = ['pinExtend', 'pinRemap', 'pinMergeAttrs', 'pinInsertAttrs', 'pinDefaultExtendMapping',
         'pinMapIdentifiers']
 GEN_SITES = ['einsum:numeric_calculate_filter_function_0',
@@ -93,6 +111,10 @@ def registers_correspondence(ctx):
 def correspondence(ctx):
     decision_correspondence(ctx)
     registers_correspondence(ctx)
+    # definition part of extend on real pulses vs the model RemapDef (identifiers, which operator and
+    # which coefficient row sits under each identifier, additional noise Hamiltonian, dt / t / tau,
+    # error classes)
+    corr_script(ctx, 'corr_c06def', ['extend'])
     lines, refs = [], []
     for N in range(1, 5):
         for k in range(1, N + 1):
@@ -150,6 +172,10 @@ def check_extend(ctx, case):
             p.cache_filter_function(om)
         elif st == 'ff_other':
             p.cache_filter_function(om[:3]*1.1)
+        elif st == 'cm_shift':      # another grid of the SAME length
+            p.cache_control_matrix(om*1.07 + 0.03)
+        elif st == 'ff_shift':
+            p.cache_filter_function(om*1.07 + 0.03)
     add = None
     add_terms = []
     if case['additional']:
@@ -160,6 +186,12 @@ def check_extend(ctx, case):
     mapping = [(p, (q[0] if len(q) == 1 else tuple(q))) for p, q in zip(pulses, assign)]
     kw = dict(N=N, omega=om, cache_diagonalization=case['cache_diag'],
               cache_filter_function=case['cache_ff'])
+    if case.get('pass_omega') is False:
+        # every input carries data on one common grid and no grid is passed: whatever is cached on
+        # the result is cached on that common grid
+        del kw['omega']
+        if case['states'][0].endswith('_shift'):
+            om = om*1.07 + 0.03
     if add is not None:
         kw['additional_noise_Hamiltonian'] = add
     feats = {'single_pulse_whole_register_with_additional':
@@ -318,6 +350,13 @@ def search(ctx, deep=False):
                 'cache_diag': [None, True, False][int(rng.integers(0, 3))],
                 'cache_ff': [None, True, False][int(rng.integers(0, 3))],
                 'additional': bool(rng.random() < 0.4), 'traceless': bool(rng.random() < 0.5)}
+        if i % 3 == 2:
+            # all inputs in one and the same cache state (a common grid, possibly not the requested
+            # one but of the same length), with and without a grid passed to extend
+            st = str(rng.choice(['cm', 'ff', 'cm_shift', 'ff_shift', 'cm_shift']))
+            case['states'] = [st for _ in a]
+            case['cache_ff'] = [True, True, None][int(rng.integers(0, 3))]
+            case['pass_omega'] = bool(rng.random() < 0.7)
         check_extend(ctx, case)
         if i % 8 == 0:
             check_nonpauli(ctx, {'seed': int(rng.integers(0, 2**31))})
